@@ -73,6 +73,7 @@ class Built:
         self.placement: dict = {}
         self.fresh_prob = (shape_seed % 3) * 0.4      # 0, .4, .8: how often an equal but distinct instance is built
         self.twins = twins
+        self.ctx_fail = False        # True: the failing tasks fail because the Lab's context tells them to ('failnow')
 
     def cls(self, t):
         if self.cfg.get('twins'):
@@ -88,7 +89,7 @@ class Built:
         return U.TYPES[(y, None if mp >= UNL else mp, c)]
 
     def behaviour(self, t):
-        b = self.fail_beh if t in self.cfg['fail'] else 'ok'
+        b = self.fail_beh if (t in self.cfg['fail'] and not self.ctx_fail) else 'ok'
         extra = self.beh.get(t)
         return b + (' ' + extra if extra else '')
 
